@@ -1,16 +1,23 @@
 """C43 - schema agreement is reported only when all live nodes agree.
 
-Spec: spec/ControlAgree.tla - Poll(snapshot) is one iteration of the wait loop (two schema_version queries, compare,
-      sleep 0.2 s), SetResult records the verdict in the schema-changing request's future.
-TLC : exhaustive over all sequences of snapshots (control node version, version of every peers row, Host.is_up of
-      every known peer: up / down / undetermined, one peer unknown to the metadata) within the wait budget, for the
-      three ways the wait is used; invariants AgreedIffSingle, PollTimes, KeepsPolling, FutureRecords, liveness
-      Terminates; the state graph is dumped.
-Bind: walks covering every edge of that graph, each extended to a terminal state, are executed on the real
-      ControlConnection.wait_for_schema_agreement of a simulated cluster (virtual clock) - directly, and through a
-      CREATE TABLE request whose SCHEMA_CHANGE result goes through the real ResponseFuture and
-      refresh_schema_and_set_result (schema metadata enabled and disabled).  Compared: the virtual time of every
-      poll, the returned verdict, ResponseFuture.is_schema_agreed.
+Spec: spec/ControlAgree.tla - Poll(snapshot, instant) is one round trip of the two schema_version queries, Finish(v,
+      instant) the reported outcome (return value / ResponseFuture.is_schema_agreed).  The polling SCHEDULE is an
+      environment choice: any schedule whose polls are at most MaxGap apart is a behaviour; what is fixed is C43:
+      (a) agreement is reported exactly when the snapshot polled last is uniform over the control node and the known
+      peers not marked down, (b) otherwise "no agreement" only when no polled snapshot was uniform, not before the wait
+      has elapsed and with the last poll not earlier than the wait minus one poll gap, (c) the request's result
+      records the outcome.
+TLC : exhaustive over all schedules x all per-poll snapshots (control node version, version of every peers row,
+      Host.is_up of every known peer: up / down / undetermined, a peer unknown to the metadata) for the three ways the
+      wait is used; invariants AgreementOnlyWhenUniform, UniformIsReported, NoAgreementOnlyAfterWait, KeepsPolling,
+      FutureRecords, liveness Terminates (thorough).
+Bind: code -> spec.  The cluster state is scripted over virtual time (timelines of snapshots: every single snapshot,
+      every pair (disagreeing snapshot, any snapshot) with the change between the driver's polls, seeded longer
+      timelines); the real ControlConnection.wait_for_schema_agreement runs on it - directly, and through a CREATE
+      TABLE request whose SCHEMA_CHANGE result goes through the real ResponseFuture and refresh_schema_and_set_result
+      (schema metadata enabled and disabled) - polling whenever it likes; each poll sees the snapshot current at that
+      instant and takes a small positive virtual time.  The recorded run (instant and snapshot of every poll, outcome,
+      instant of the outcome) is validated by TLC against Trace_ControlAgree.tla.
 """
 import os
 
@@ -19,206 +26,213 @@ from harness import tlc
 META = {
     "property_id": "C43",
     "engine": "ControlAgree",
-    "technique": "TLA+ spec of the agreement wait loop checked exhaustively by TLC; every edge of the state graph replayed "
-                 "(as complete behaviours) on the real wait_for_schema_agreement / ResponseFuture with a virtual clock",
+    "technique": "TLA+ spec of the agreement wait (any polling schedule, fixed reporting rule) checked exhaustively by TLC; runs of "
+                 "the real wait_for_schema_agreement / ResponseFuture on scripted snapshot timelines (virtual clock) recorded and "
+                 "validated by TLC against the spec",
     "level": "model_checking",
-    "level_text": "TLC explores every sequence of per-poll snapshots (2 known peers each up/down/undetermined and reporting "
-                  "one of two versions, one peer unknown to the metadata, waits of 0.3/0.5(/0.7) s = 2-4 polls) for a direct "
-                  "wait and for a schema-changing request with schema metadata on and off, and checks that agreement is "
-                  "reported exactly at the first poll whose live versions form a single version, that polling continues "
-                  "every 0.2 s until the wait has elapsed otherwise, and that the request's result records the verdict. "
-                  "Every edge of the graph is replayed on the real driver: poll times, verdict and is_schema_agreed must "
-                  "equal the specification's.",
-    "level_note": "Trusted: TLC; FakeNode answering the two schema-version queries synchronously (no query latency, no "
-                  "query timeouts); Host.is_up set directly by the harness; waits chosen so that no poll falls on the "
-                  "deadline; max_schema_agreement_wait = 0 (wait disabled) not covered.",
+    "level_text": "TLC explores every polling schedule (gaps up to the poll interval plus a round trip) and every per-poll "
+                  "snapshot (2 known peers each up/down/undetermined and reporting one of two versions, one peer unknown to the "
+                  "metadata) for a direct wait and for a schema-changing request with schema metadata on and off, and checks that "
+                  "agreement is reported exactly when the polled live versions form a single version, that 'no agreement' is "
+                  "reported only after polling until the wait has elapsed, and that the request's result records the outcome. "
+                  "The real driver is then run on every one- and two-snapshot timeline (and seeded longer ones) with waits of "
+                  "0.3/0.5(/0.7) s, and TLC accepts or rejects each recorded run against the specification.",
+    "level_note": "Trusted: TLC; FakeNode answering the two schema-version queries with a fixed 0.05 s virtual round trip (no "
+                  "OperationTimedOut inside the loop); Host.is_up set directly by the harness; 'keeps polling' read as: no gap "
+                  "between polls longer than 0.2 s + a round trip (+0.05 s discretisation); max_schema_agreement_wait = 0 "
+                  "(wait disabled) not covered.",
     "design_ref": "5.4 C43",
 }
 
-INVARIANTS = ["TypeOK", "AgreedIffSingle", "PollTimes", "KeepsPolling", "FutureRecords"]
-WITNESSES = ["Witness_AgreeLater", "Witness_DownIgnored", "Witness_UnknownIgnored", "Witness_NoneCounts", "Witness_Timeout",
-             "Witness_FutureFalse", "Witness_FutureTrueNoMeta"]
-MODES = {"direct", "ddl_meta", "ddl_nometa"}
+INVARIANTS = ["TypeOK", "AgreementOnlyWhenUniform", "UniformIsReported", "NoAgreementOnlyAfterWait", "KeepsPolling",
+              "FutureRecords"]
+WITNESSES = ["Witness_AgreeLater", "Witness_DownIgnored", "Witness_NoneCounts", "Witness_Timeout", "Witness_DenseSchedule",
+             "Witness_FutureYesNoMeta"]
+MODES = ["direct", "ddl_meta", "ddl_nometa"]
 MAX_REPORT_PER_SIGNATURE = 2
+VERS = ("A", "B")
+STATES = ("up", "down", "none")
 
 
-def complete_walks(nodes, edges, init, rng):
-    """Walks from an initial state that together cover every edge, each extended by random successors to a
-    terminal state (the real call cannot be stopped half way)."""
-    from collections import deque
-    succ = {}
-    for s, d, _ in edges:
-        succ.setdefault(s, []).append(d)
-    parent = {}
-    dq = deque()
-    for i in init:
-        parent[i] = None
-        dq.append(i)
-    while dq:
-        u = dq.popleft()
-        for v in succ.get(u, ()):
-            if v not in parent:
-                parent[v] = u
-                dq.append(v)
-    uncovered = set((s, d) for s, d, _ in edges if s in parent)
-    order = sorted(uncovered)
-    rng.shuffle(order)
-    walks = []
-    for s, d in order:
-        if (s, d) not in uncovered:
-            continue
-        w = [d, s]
-        while parent[w[-1]] is not None:
-            w.append(parent[w[-1]])
-        w.reverse()
-        while succ.get(w[-1]):
-            nxt = [v for v in succ[w[-1]] if (w[-1], v) in uncovered]
-            w.append(rng.choice(nxt or succ[w[-1]]))
-        uncovered.difference_update(zip(w, w[1:]))
-        walks.append(w)
-    return walks
-
-
-def _harnesses(consts):
+def _harnesses(kpeers, upeers):
     from harness.replay import control as rc
-    return {"meta": rc.AgreeHarness(consts["KPeers"], consts["UPeers"], True),
-            "nometa": rc.AgreeHarness(consts["KPeers"], consts["UPeers"], False)}
+    return {"meta": rc.AgreeHarness(kpeers, upeers, True), "nometa": rc.AgreeHarness(kpeers, upeers, False)}
+
+
+def all_snapshots(n_known=2, n_unknown=1, local=("A",)):
+    """Every snapshot of Snaps in ControlAgree.tla (the data model shared with the spec)."""
+    import itertools
+    out = []
+    for lo in local:
+        for pv in itertools.product(VERS, repeat=n_known + n_unknown):
+            for st in itertools.product(STATES, repeat=n_known):
+                out.append({"local": lo, "pv": list(pv), "st": list(st)})
+    return out
+
+
+def timelines(ctx, rc):
+    """(mode, wait in ticks, timeline) cases. Exhaustive part: every single snapshot, every pair (s1, s2) with the
+    change placed between the driver's first polls; seeded part: longer timelines with arbitrary change instants."""
+    snaps = all_snapshots()
+    rng = ctx.rng
+    cases = []
+    waits = [6, 10] if ctx.quick else [6, 10, 14]
+    n = 0
+    for w in waits:
+        for s in snaps:
+            for m in MODES:
+                cases.append((m, w, [(0, s)]))
+    for s1 in snaps:
+        for s2 in snaps:
+            if s1 == s2:
+                continue
+            for change in ((3,) if ctx.quick else (3, 5)):
+                for m in (MODES if not ctx.quick else (MODES[n % 3],)):
+                    cases.append((m, 6 if change == 3 else 10, [(0, s1), (change, s2)]))
+                n += 1
+    for _ in range(1500 if ctx.quick else 12000):
+        w = rng.choice(waits)
+        k = rng.choice((2, 3, 3, 4))
+        cuts = sorted(rng.sample(range(1, w + 3), k - 1))
+        tl = [(0, rng.choice(snaps))] + [(c, rng.choice(snaps)) for c in cuts]
+        cases.append((rng.choice(MODES), w, tl))
+    return cases
 
 
 def run(ctx):
     from harness.replay import control as rc
+    import copy
     import time
-    consts = {"KPeers": {1, 2}, "UPeers": {3}, "Vers": {"A", "B"}, "LocalVers": {"A"},
-              "Waits": {3, 5} if ctx.quick else {3, 5, 7}, "Modes": MODES}
-    cfg = tlc.write_cfg(os.path.join(ctx.scratch, "agree.cfg"), spec="Spec", constants=consts, invariants=INVARIANTS,
-                        properties=["Terminates"], constraints=["RecordWitnesses"], postcondition="PrintWitnesses",
-                        deadlock=False)
+    quick = ctx.quick
+    base = {"KPeers": {1, 2}, "UPeers": {3}, "Vers": set(VERS), "LocalVers": {"A"}, "Modes": set(MODES), "MaxGap": rc.MAX_GAP}
+    timing = {}
+
+    # ---- the specification itself: every schedule x every snapshot
     t0 = time.time()
-    res, nodes, edges, init = tlc.state_graph("ControlAgree", cfg, ctx.scratch, workers=1, timeout=600 if ctx.quick else 3000)
-    ctx.add_tlc(res, "exhaustive (safety + termination), graph dumped")
-    ctx.note("constants", {k: sorted(v) for k, v in consts.items()})
+    econsts = dict(base, Waits={6} if quick else {6, 10}, UPeers=set() if quick else {3})
+    cfg = tlc.write_cfg(os.path.join(ctx.scratch, "agree.cfg"), spec="Spec", constants=econsts, invariants=INVARIANTS,
+                        properties=() if quick else ("Terminates",), constraints=["RecordWitnesses"],
+                        postcondition="PrintWitnesses", deadlock=False)
+    res = tlc.check_model("ControlAgree", cfg, ctx.scratch, workers=1, timeout=1500 if quick else 3000)
+    ctx.add_tlc(res, "exhaustive: all schedules x all snapshots (%s)" % ("safety" if quick else "safety + termination"))
+    ctx.note("constants", {k: (sorted(v) if isinstance(v, set) else v) for k, v in econsts.items()})
     ctx.note("exhaustive", True)
-    timing = {"tlc_graph": round(time.time() - t0, 1)}
     if res.violation:
         ctx.violation("TLC: %s violated in ControlAgree.tla" % res.invariant,
                       replay={"trace": [s for _, s in res.trace()]}, signature="spec:%s" % res.invariant)
         return
-    rc.witnesses_in(res, WITNESSES, "ControlAgree")
-    ctx.note("vacuity_witnesses_reached", len(WITNESSES))
+    rc.witnesses_in(res, WITNESSES + ([] if quick else ["Witness_UnknownIgnored"]), "ControlAgree")
+    ctx.note("vacuity_witnesses_reached", len(WITNESSES) + (0 if quick else 1))
+    timing["tlc_exhaustive"] = round(time.time() - t0, 1)
 
-    if not ctx.quick:
-        big = dict(consts, KPeers={1, 2, 3}, UPeers={4}, LocalVers={"A"}, Waits={3, 5})
-        bcfg = tlc.write_cfg(os.path.join(ctx.scratch, "agree_big.cfg"), spec="Spec", constants=big, invariants=INVARIANTS,
-                             deadlock=False)
-        bres = tlc.check_model("ControlAgree", bcfg, ctx.scratch, timeout=3000)
-        ctx.add_tlc(bres, "exhaustive, 3 known peers + 1 unknown (spec only, safety)")
-        if bres.violation:
-            ctx.violation("TLC: %s violated in ControlAgree.tla (3 known peers)" % bres.invariant,
-                          replay={"trace": [s for _, s in bres.trace()]}, signature="spec:%s" % bres.invariant)
-            return
-
-    # ---- spec -> code
+    # ---- code -> spec: real runs on scripted timelines, validated by TLC
     t0 = time.time()
-    walks = complete_walks(nodes, edges, init, ctx.rng)
-    all_edges = set((s, d) for s, d, _ in edges)
-    covered = set()
-    for w in walks:
-        covered.update(zip(w, w[1:]))
-    ctx.note("graph_edges", len(all_edges))
-    ctx.note("graph_edges_replayed", len(covered & all_edges))
-    if covered & all_edges != all_edges:
-        raise tlc.MachineryError("walks do not cover the graph: %d of %d edges" % (len(covered & all_edges), len(all_edges)))
-    hs = _harnesses(consts)
-    by_sig = {}
-    for i, w in enumerate(walks):
-        states = [nodes[n] for n in w]
-        got, d = rc.agree_run(hs, states)
-        ctx.evaluations += 1
-        polls = [s for s in states[1:] if s["act"]["name"] == "Poll"]
-        if len(polls) >= 2 or any(x != "up" for s in polls for x in s["snap"]["st"]):
-            ctx.nontrivial(tuple(w))
+    hs = _harnesses([1, 2], [3])
+    cases = timelines(ctx, rc)
+    traces = []
+    for i, (mode, w, tl) in enumerate(cases):
+        tr, got = rc.agree_trace(hs, mode, w, tl)
+        traces.append(tr)
+        npolls = sum(1 for e in tr if e["e"] == "Poll")
+        if npolls >= 2 or any(x != "up" for _, s in tl for x in s["st"]):
+            ctx.nontrivial(i)
         if i % 2503 == 11:
-            ctx.sample({"mode": states[0]["mode"], "wait_tenths": states[0]["wait"], "polls": [dict(s["snap"]) for s in polls],
-                        "poll_times_tenths": [s["at"] for s in polls], "verdict": states[-1]["verdict"],
-                        "is_schema_agreed": states[-1]["future"]})
-        if not d:
-            ctx.traces_validated += 1
-            continue
-        sig = rc.agree_signature(states, d)
-        by_sig[sig] = by_sig.get(sig, 0) + 1
-        if by_sig[sig] <= MAX_REPORT_PER_SIGNATURE:
-            ctx.violation("%s, wait %.1f s, polls %s: %s" % (states[0]["mode"], states[0]["wait"] / 10.0,
-                                                              [dict(s["snap"]) for s in polls], d),
-                          replay={"kpeers": sorted(consts["KPeers"]), "upeers": sorted(consts["UPeers"]), "walk": states, "diff": d},
-                          signature=sig)
-    timing["replay"] = round(time.time() - t0, 1)
-    ctx.note("behaviours_replayed", len(walks))
-    ctx.note("timing_s", timing)
-    if by_sig:
-        ctx.note("divergences_by_signature", by_sig)
-
-    # ---- binding self-test: flipped expectations must be noticed
-    def find(pred):
-        for w in walks:
-            ss = [nodes[x] for x in w]
-            if pred(ss) and not rc.agree_run(hs, ss)[1]:
-                return ss
-        return None
-    w1 = find(lambda ss: ss[0]["mode"] == "direct" and ss[-1]["verdict"] == "yes" and ss[-1]["k"] >= 2)
-    w2 = find(lambda ss: ss[0]["mode"] == "ddl_meta" and ss[-1]["future"] == "no")
-    if w1 is None or w2 is None:
-        if not by_sig:
-            raise tlc.MachineryError("binding self-test: no conforming probe behaviour")
-        ctx.note("binding_selftest", {"skipped": "the code under test diverges on every probe"})
-    else:
-        n = 0
-        bad = [dict(s) for s in w1]
-        bad[-1]["verdict"] = "no"
-        n += bool(rc.agree_run(hs, bad)[1])
-        bad = [dict(s) for s in w1]
-        bad[1]["at"] = 1
-        n += bool(rc.agree_run(hs, bad)[1])
-        bad = [dict(s) for s in w1][:-1]                 # drop the agreeing poll: the code polls once more than expected
-        n += bool(rc.agree_run(hs, bad)[1])
-        bad = [dict(s) for s in w2]
-        bad[-1]["future"] = "yes"
-        n += bool(rc.agree_run(hs, bad)[1])
-        if n != 4:
-            raise tlc.MachineryError("binding self-test failed: only %d of 4 corrupted expectations were rejected" % n)
-        ctx.note("binding_selftest", {"corrupted_rejected": n})
+            ctx.sample({"mode": mode, "wait_s": w * rc.TICK, "timeline": [(f * rc.TICK, s) for f, s in tl],
+                        "recorded": [{k: v for k, v in e.items()} for e in tr[1:]]})
     for h in hs.values():
         h.shutdown()
-    ctx.note("rule", "one case = one complete behaviour (sequence of per-poll snapshots to a verdict); non-trivial = at "
-                     "least two polls, or some known peer is down / undetermined in some poll")
+    timing["real_runs"] = round(time.time() - t0, 1)
+    good = len(traces)
+    # binding self-test: a flipped outcome, a dropped poll, a schedule with a hole must be rejected
+    v1 = next((t for t in traces if t[0]["mode"] == "direct" and t[-1].get("v") == "yes" and len(t) >= 4), None)
+    v2 = next((t for t in traces if t[0]["mode"] == "ddl_meta" and t[-1].get("v") == "no" and t[0]["wait"] >= 10
+               and len(t) >= 4), None)
+    selftest = []
+    if v1 is not None and v2 is not None:
+        b1 = copy.deepcopy(v1)
+        b1[-1]["v"] = "no"
+        b2 = copy.deepcopy(v1)
+        del b2[-2]                                    # the agreeing poll is gone: "yes" on a disagreeing snapshot
+        b3 = copy.deepcopy(v2)
+        del b3[-2]                                    # gave up polling long before the wait elapsed
+        b4 = copy.deepcopy(v2)
+        b4[-1]["v"] = "yes"
+        selftest = [v1, v2, b1, b2, b3, b4]
+    t0 = time.time()
+    tconsts = dict(base, Waits={6, 10, 14})
+    tcfg = tlc.write_cfg(os.path.join(ctx.scratch, "agree_trace.cfg"), init="TraceInit", next="TraceNext", constants=tconsts,
+                         invariants=INVARIANTS, constraints=["Progress"], postcondition="Done", deadlock=False)
+    tres, prog = tlc.validate_traces("Trace_ControlAgree", tcfg, traces + selftest, ctx.scratch, timeout=3000)
+    ctx.add_tlc(tres, "trace validation of %d real runs" % good)
+    timing["tlc_traces"] = round(time.time() - t0, 1)
+    if tres.violation:
+        ctx.violation("invariant %s violated in a state of a recorded execution" % tres.invariant,
+                      replay={"trace": [dict(s) for _, s in tres.trace()][-3:]}, signature="trace-inv:%s" % tres.invariant)
+        return
+    by_sig = {}
+    accepted = 0
+    for i in range(good):
+        t = traces[i]
+        ctx.evaluations += 1
+        if prog[i] == len(t) + 1:
+            accepted += 1
+            continue
+        at = prog[i] - 1
+        sig = rc.agree_signature(t, at)
+        by_sig[sig] = by_sig.get(sig, 0) + 1
+        if by_sig[sig] <= MAX_REPORT_PER_SIGNATURE:
+            mode, w, tl = cases[i]
+            ctx.violation("%s, wait %.2f s, timeline %s: the recorded run %s is not a behaviour of ControlAgree.tla (rejected at "
+                          "event %d: %s)" % (mode, w * rc.TICK, [(f * rc.TICK, s) for f, s in tl], t[1:], at, t[at]),
+                          replay={"mode": mode, "wait": w, "timeline": [[f, s] for f, s in tl], "recorded": t, "rejected_at": at},
+                          signature=sig)
+    ctx.traces_validated += accepted
+    ctx.note("real_runs", good)
+    ctx.note("real_runs_accepted", accepted)
+    if by_sig:
+        ctx.note("divergences_by_signature", by_sig)
+    if selftest:
+        ok_probe = prog[good] == len(v1) + 1 and prog[good + 1] == len(v2) + 1
+        rejected = [prog[good + 2 + j] <= len(selftest[2 + j]) for j in range(4)]
+        if ok_probe and not all(rejected):
+            raise tlc.MachineryError("binding self-test failed: corrupted traces accepted: %s" % rejected)
+        ctx.note("binding_selftest", {"corrupted_rejected": sum(rejected)} if ok_probe else
+                 {"skipped": "the code under test diverges on the probes"})
+    elif not by_sig:
+        raise tlc.MachineryError("binding self-test: no probe runs found")
+    ctx.note("timing_s", timing)
+    ctx.note("rule", "one case = one run of the real wait on one scripted timeline; non-trivial = at least two polls, or some "
+                     "known peer is down / undetermined somewhere on the timeline")
     ctx.assumptions += [
-        "the schema-version queries are answered at once (no latency, no OperationTimedOut inside the loop)",
-        "max_schema_agreement_wait in {0.3, 0.5, 0.7} s: no poll falls exactly on the deadline; 0 (disabled) not covered",
-        "peers rows always carry a schema version; the control node always reports one",
-        "schema versions are interchangeable (the control node always reports version A in the replayed graph)",
+        "each poll (the two schema-version queries) takes 0.05 s of virtual time and is always answered (no OperationTimedOut)",
+        "'keeps polling until the configured wait elapses' is read as: no gap between polls (or before the first one) longer than "
+        "0.2 s + one round trip + 0.05 s, the last poll not earlier than the wait minus that gap, 'no agreement' not reported "
+        "before the wait has elapsed; the schedule inside that envelope is free",
+        "max_schema_agreement_wait in {0.3, 0.5, 0.7} s; 0 (disabled) not covered",
+        "peers rows always carry a schema version; the control node always reports one (version A: versions are interchangeable)",
     ]
-
-
-def _fix(obj):
-    if isinstance(obj, dict):
-        return {(int(k) if isinstance(k, str) and k.lstrip("-").isdigit() else k): _fix(v) for k, v in obj.items()}
-    if isinstance(obj, list):
-        return [_fix(x) for x in obj]
-    return obj
 
 
 def replay(ctx, obj):
     from harness.replay import control as rc
-    obj = _fix(obj)
-    hs = _harnesses({"KPeers": obj["kpeers"], "UPeers": obj["upeers"]})
-    walk = obj["walk"]
-    got, d = rc.agree_run(hs, walk)
-    polls = [s for s in walk[1:] if s["act"]["name"] == "Poll"]
-    print("mode=%s wait=%.1fs" % (walk[0]["mode"], walk[0]["wait"] / 10.0))
-    for s in polls:
-        print("  poll at %.1fs sees %s" % (s["at"] / 10.0, s["snap"]))
-    print("spec: verdict=%s is_schema_agreed=%s" % (walk[-1]["verdict"], walk[-1]["future"]))
-    print("code:", got)
+    hs = _harnesses([1, 2], [3])
+    tl = [(f, s) for f, s in obj["timeline"]]
+    tr, got = rc.agree_trace(hs, obj["mode"], obj["wait"], tl)
     for h in hs.values():
         h.shutdown()
-    if d:
-        ctx.violation("replayed: still differs: %s" % d, replay=obj, signature=rc.agree_signature(walk, d))
+    print("mode=%s wait=%.2fs" % (obj["mode"], obj["wait"] * rc.TICK))
+    for f, s in tl:
+        print("  from %.2fs the cluster is %s" % (f * rc.TICK, s))
+    for e in tr[1:]:
+        print("  recorded:", e)
+    cfg = tlc.write_cfg(os.path.join(ctx.scratch, "agree_trace.cfg"), init="TraceInit", next="TraceNext",
+                        constants={"KPeers": {1, 2}, "UPeers": {3}, "Vers": set(VERS), "LocalVers": {"A"}, "Modes": set(MODES),
+                                   "MaxGap": rc.MAX_GAP, "Waits": {6, 10, 14}},
+                        invariants=INVARIANTS, constraints=["Progress"], postcondition="Done", deadlock=False)
+    tres, prog = tlc.validate_traces("Trace_ControlAgree", cfg, [tr], ctx.scratch, timeout=900)
+    if prog[0] != len(tr) + 1:
+        at = prog[0] - 1
+        ctx.violation("replayed: the run is still rejected by ControlAgree.tla at event %d: %s" % (at, tr[at]), replay=obj,
+                      signature=rc.agree_signature(tr, at))
+    else:
+        print("accepted by ControlAgree.tla")
